@@ -1,5 +1,6 @@
 import DendroModel.Model.C19Ext
 import DendroModel.Model.C19Heap
+import DendroModel.Model.C19Seq
 open DendroModel DendroModel.C19
 
 /-! line protocol of `drv_c19`.
@@ -25,6 +26,10 @@ ops     := concat n M_1 … M_n | export_idx M k i_1 … i_k | export_sub M labe
                                    `setseq i t j u` (m_i[t] = the sequence OBJECT of m_j[u]), `copy i` (shallow);
                                    answer: `ok` then for every call ` | status world`, world = `M R … S …` per pool position
                                    and `A i:t+i:t,…` = the groups of dict entries that hold one and the same sequence object)
+         | seq3 nv v… nt t… na a… n { scall }   (the row OBJECT, `Model/C19Seq.lean`: values / character types / annotations, 0 = None;
+                                   scall = `append v t a` | `extend k v… (N | k t…) (N | k a…)` | `del i` | `delslice lo|N hi|N`
+                                   | `set i v` | `setslice lo|N hi|N k v…` | `insert i v t a` | `setat i v t a`;
+                                   answer: `ok` then for every call ` | status V v.v T t.t A a.a`, status = ok | IndexError | AssertionError)
 answers := `ok [size] R taxon=c.c.c … S label=i.i …` (rows sorted by taxon: the dict's insertion order is not part of the
            statement — it only decides `sequence_size` of ragged matrices — and is deliberately not compared) | `ValueError` | `KeyError [R … S …]` | `IndexError`
          | `ok len maxsize sequence_size` (sizes; sequence_size = length of the FIRST row in dict insertion order) | `ok 0|1` (contains M t) | `ok row=c.c R … S …` (getitem) | `ok t=c.c t=c.c …` (items, in iteration order) | `ParseError` | `OpenError` -/
@@ -273,6 +278,64 @@ def runWorld : World → List HCall → Option (List String)
       (runWorld w' cs).map (fun r => (showStatus e ++ " " ++ showWorld w') :: r)
     else none
 
+
+/-! ### op `seq3` -/
+
+def pOptInt : P (Option Int) := do
+  let t ← tok
+  if t == "N" then pure none else
+    match t.toInt? with
+    | some n => pure (some n)
+    | none => failure
+
+def pOptList : P (Option (List Nat)) := do
+  let t ← tok
+  if t == "N" then pure none else
+    match t.toNat? with
+    | some n => do
+      let l ← pMany pNat n
+      pure (some l)
+    | none => failure
+
+def pSeqOp : P SeqOp := do
+  let name ← tok
+  if name == "append" then do
+    let v ← pNat; let t ← pNat; let a ← pNat
+    return .append v t a
+  else if name == "extend" then do
+    let vs ← pCounted pNat; let ts ← pOptList; let as ← pOptList
+    return .extend vs ts as
+  else if name == "del" then return .delItem (← pInt)
+  else if name == "delslice" then do
+    let lo ← pOptInt; let hi ← pOptInt
+    return .delSlice lo hi
+  else if name == "set" then do
+    let i ← pInt; let v ← pNat
+    return .setItem i v
+  else if name == "setslice" then do
+    let lo ← pOptInt; let hi ← pOptInt; let vs ← pCounted pNat
+    return .setSlice lo hi vs
+  else if name == "insert" then do
+    let i ← pInt; let v ← pNat; let t ← pNat; let a ← pNat
+    return .insert i v t a
+  else if name == "setat" then do
+    let i ← pInt; let v ← pNat; let t ← pNat; let a ← pNat
+    return .setAt i v t a
+  else failure
+
+def showSeq (s : Seq3) : String := s!"V {dots s.vals} T {dots s.types} A {dots s.annots}"
+
+def showSeqStatus : Option SeqErr → String
+  | none => "ok"
+  | some .indexError => "IndexError"
+  | some .assertionError => "AssertionError"
+
+def runSeq : Seq3 → List SeqOp → List String
+  | _, [] => []
+  | s, op :: ops =>
+    let (s', e) := seqStep s op
+    (showSeqStatus e ++ " " ++ showSeq s') :: runSeq s' ops
+
 def handle (ws : List String) : String :=
   match ws with
   | "concat" :: rest =>
@@ -363,6 +426,13 @@ def handle (ws : List String) : String :=
         | some outs => " | ".intercalate ("ok" :: outs)
         | none => "bad-op"
       else "bad-op"
+    | none => "bad-op"
+  | "seq3" :: rest =>
+    match whole (do
+        let v ← pCounted pNat; let t ← pCounted pNat; let a ← pCounted pNat
+        let ops ← pCounted pSeqOp
+        pure (({ vals := v, types := t, annots := a } : Seq3), ops)) rest with
+    | some (s, ops) => " | ".intercalate ("ok" :: runSeq s ops)
     | none => "bad-op"
   | "concat_paths" :: rest =>
     match whole (pCounted pPath) rest with
